@@ -507,3 +507,31 @@ def truncated_near_integer(fn):
                     and c.args[0].value in ('int', 'long') and isinstance(c.args[1], ast.Name) and c.args[1].id == q:
                 out.append((c, q))
     return out
+
+
+def falsy_numeric_default(fn):
+    """[(node, name)]: 'x or default' (or 'x if x else default') with a numeric default: the number 0 is a legal value of x and is replaced by
+    the default as if the argument had not been given."""
+    numeric_params = {a.arg for a in fn.args.posonlyargs + fn.args.args + fn.args.kwonlyargs
+                      if (isinstance(a.annotation, ast.Constant) and str(a.annotation.value) in ('double', 'float', 'int', 'long', 'Py_ssize_t'))
+                      or getattr(a, 'cy_type', None) in ('double', 'float', 'int', 'long', 'Py_ssize_t')}
+
+    def numeric(e):
+        if isinstance(e, ast.UnaryOp) and isinstance(e.op, (ast.USub, ast.UAdd)):
+            return numeric(e.operand)
+        if isinstance(e, ast.Constant):
+            return isinstance(e.value, (int, float)) and not isinstance(e.value, bool)
+        if isinstance(e, ast.Name):
+            return e.id in numeric_params or e.id in ('INFINITY', 'inf', 'NAN', 'nan')
+        if isinstance(e, ast.Attribute):
+            return e.attr in ('inf', 'infty', 'Inf', 'nan', 'pi')
+        if isinstance(e, ast.Call):
+            return dotted(e.func) == 'float'
+        return False
+    out = []
+    for n in ast.walk(fn):
+        if isinstance(n, ast.BoolOp) and isinstance(n.op, ast.Or) and len(n.values) == 2 and isinstance(n.values[0], ast.Name) and numeric(n.values[1]):
+            out.append((n, n.values[0].id))
+        elif isinstance(n, ast.IfExp) and isinstance(n.test, ast.Name) and isinstance(n.body, ast.Name) and n.body.id == n.test.id and numeric(n.orelse):
+            out.append((n, n.test.id))
+    return out
